@@ -85,12 +85,16 @@ CLAIMS["C16"] = dict(
          "at end of stream, receive_until = bytes before the first occurrence with the delimiter consumed, "
          "DelimiterNotFound/IncompleteRead conditions, failing calls consume nothing, the search offset is "
          "sound and tight; text: chunking transparency for any fold decoder, UTF-8 round trip via Lean "
-         "core's encoder/decoder. The models are compared with the real BufferedByteReceiveStream / "
+         "core's encoder/decoder, and (Props/C16codecs.lean) round trips for the modelled latin-1, UTF-16 and "
+         "UTF-32 incremental codecs - explicit little/big endian and BOM-writing/BOM-detecting variants, all "
+         "Unicode scalar values including surrogate pairs, any chunking of the wire bytes, BOM written once and "
+         "a leading U+FEFF of the text preserved. The models are compared with the real BufferedByteReceiveStream / "
          "TextReceiveStream / TextSendStream on exhaustively enumerated small inputs and random long ones.",
     design="5/C16",
     note=BASE_NOTE + "Trusted: the in-memory fake wrapped streams; bytearray.find = the model's naive "
-         "search (proved to be first-occurrence in Lean, compared on every case); CPython's utf-16/32/latin-1 "
-         "incremental codecs (fold law sampled, not proved; UTF-8 is proved over Lean core's definitions).",
+         "search (proved to be first-occurrence in Lean, compared on every case); that CPython's utf-16/32/latin-1 "
+         "incremental codecs equal the Lean step functions (compared by the harness on every run; the round "
+         "trips are proved for the Lean functions).",
     technique="Lean 4 proofs over pure functional models + exhaustive/random differential testing")
 
 CLAIMS["C20"] = dict(
